@@ -368,6 +368,10 @@ func lemmaCloseRoundTrip(code StatusCode, reason string) bool {
 // ---------------------------------------------------------------------------
 // Masking (C02, RFC 6455 §5.3).
 
+// VMaskIdx is the key index used for payload byte k at stream offset off (RFC 6455 §5.3: (off+k) mod 4,
+// written so that it cannot overflow).
+func VMaskIdx(off, k int) int { return (off%4 + k) % 4 }
+
 // specMask64 is the key repeated twice, little endian, as the word loop of Cipher uses it.
 func specMask64(m [4]byte) uint64 {
 	w := uint64(m[0]) | uint64(m[1])<<8 | uint64(m[2])<<16 | uint64(m[3])<<24
@@ -377,10 +381,10 @@ func specMask64(m [4]byte) uint64 {
 //@ func Cipher
 //@   props C02 C15
 //@   requires [off] 0 <= offset && offset <= 1<<62
-//@   ensures  [xor] forall(0, len(payload), func(k int) bool { return payload[k] == old(payload[k])^mask[(offset%4+k)%4] })
+//@   ensures  [xor] forall(0, len(payload), func(k int) bool { return payload[k] == old(payload[k])^mask[VMaskIdx(offset, k)] })
 //@   assigns bytes(payload)
 //@   loop 1 invariant [b] 0 <= i && i <= n && n == len(payload) && n < 8
-//@   loop 1 invariant [x] forall(0, len(payload), func(k int) bool { return payload[k] == old(payload[k])^iteByte(k < i, mask[(offset%4+k)%4], 0) })
+//@   loop 1 invariant [x] forall(0, len(payload), func(k int) bool { return payload[k] == old(payload[k])^iteByte(k < i, mask[VMaskIdx(offset, k)], 0) })
 //@   loop 1 assigns bytes(payload)
 //@   loop 1 decreases n - i
 //@   loop 2 invariant [b] 0 <= i && i <= ln && n == len(payload) && mpos == offset%4 && ln == (4-mpos)%4 && rn == (n-ln)%16
